@@ -6,6 +6,7 @@ import (
 	"errors"
 	"fmt"
 	"io"
+	"strings"
 
 	"google.golang.org/protobuf/encoding/protodelim"
 	"google.golang.org/protobuf/encoding/protowire"
@@ -19,7 +20,7 @@ import (
 func init() {
 	core.Register(&core.Check{
 		ID:     "C27",
-		Rule:   "cases: sequences of 1..5 PRNG-filled messages of corpus types (empty messages, sizes crossing the 1/2/3-byte size varint and the bufio buffer sizes, one 4 MiB pair) written with MarshalTo, then read back from the stream cut at every offset (streams > 1500 bytes: every offset near the ends and +-12 of each boundary plus PRNG offsets) through bufio readers of size 16/17/64/4096 (over whole and one-byte-at-a-time sources), a byte-at-a-time Reader, a short-read Reader and bytes.Reader; MaxSize in {size-1,size,size+1,0,-1} per message; distinct = distinct (stream, cut offset, reader); non-trivial = non-empty stream",
+		Rule:   "cases: (rejected bodies) well-framed streams in which some frame bodies are rejected by the message decoder (malformed wire data, invalid UTF-8 in a validated string, a required field missing and no AllowPartial): one result per frame then io.EOF, the later frames decode, and every reader kind reports the same sequence; sequences of 1..5 PRNG-filled messages of corpus types (empty messages, sizes crossing the 1/2/3-byte size varint and the bufio buffer sizes, one 4 MiB pair) written with MarshalTo, then read back from the stream cut at every offset (streams > 1500 bytes: every offset near the ends and +-12 of each boundary plus PRNG offsets) through bufio readers of size 16/17/64/4096 (over whole and one-byte-at-a-time sources), a byte-at-a-time Reader, a short-read Reader and bytes.Reader; MaxSize in {size-1,size,size+1,0,-1} per message; distinct = distinct (stream, cut offset, reader); non-trivial = non-empty stream",
 		Assume: []string{"reference framing: stream = concat(varint(len(Marshal(m))) + Marshal(m)); protowire.AppendVarint (C01)", "proto.Equal (C30)"},
 		Batches: func(tier string) []core.Batch {
 			bs := stdBatches([]string{"base"}, 15)
@@ -27,7 +28,7 @@ func init() {
 		},
 		Gates: func(tier string) map[string]int64 {
 			return map[string]int64{"streams": 200, "cuts": 20000, "cut_in_size": 500, "cut_in_body": 5000, "cut_at_boundary": 1000, "size_varint_2": 20, "size_varint_3": 1,
-				"empty_messages": 20, "reused_destination_reads": 2000, "reused_destination_empty_frames": 300, "too_large": 100, "maxsize_ok": 100, "messages_read": 20000, "bufio_fallback": 100}
+				"empty_messages": 20, "reused_destination_reads": 2000, "reused_destination_empty_frames": 300, "too_large": 100, "maxsize_ok": 100, "messages_read": 20000, "bufio_fallback": 100, "rejected_body_streams": 20, "rejected_body_frames": 30}
 		},
 		Run: runC27,
 	})
@@ -286,6 +287,9 @@ func runC27(c *core.Ctx, b core.Batch) {
 	}
 	types := shard(codecTypes(b), b.N, 15)
 	c27Reuse(c, types)
+	if b.N == 0 {
+		c27Rejected(c)
+	}
 	nStreams := c.Scale(30, 600)
 	for k := 0; k < nStreams; k++ {
 		r := c.Rng(uint64(k))
@@ -456,6 +460,116 @@ func c27Reuse(c *core.Ctx, types []protoreflect.MessageType) {
 						break
 					}
 				}
+			}
+		}
+	}
+}
+
+// c27Rejected: a well-framed stream in which some frame bodies are rejected by
+// the message decoder (malformed wire data, invalid UTF-8 in a validated
+// string, a missing required field read without AllowPartial). Every reader
+// kind must report the same sequence of results, and the frames after a
+// rejected one must still be read at their boundaries.
+func c27Rejected(c *core.Ctx) {
+	t3 := gen.TypeByName("goproto.proto.test3.TestAllTypes")
+	req := gen.TypeByName("goproto.proto.test.TestRequired")
+	if t3 == nil || req == nil {
+		return
+	}
+	frame := func(body []byte) []byte {
+		return append(protowire.AppendVarint(nil, uint64(len(body))), body...)
+	}
+	for k := 0; k < c.Scale(60, 1200); k++ {
+		r := c.Rng(uint64(0x27e)<<32 | uint64(k))
+		mt := t3
+		allowPartial := true
+		if k%3 == 2 {
+			mt, allowPartial = req, false
+		}
+		type fr struct {
+			body []byte
+			bad  bool
+		}
+		var frames []fr
+		n := 3 + r.Intn(4)
+		nbad := 0
+		for i := 0; i < n; i++ {
+			m := mt.New()
+			gen.Fill(r, m, gen.MsgOpts{Density: 30, MaxDepth: 2})
+			body, err := proto.MarshalOptions{AllowPartial: true, Deterministic: true}.Marshal(m.Interface())
+			if err != nil {
+				continue
+			}
+			bad := false
+			if i > 0 && i < n-1 && r.Chance(1, 2) || (i == 1 && nbad == 0) {
+				bad = true
+				switch {
+				case mt == req:
+					body = []byte{} // required field missing, read without AllowPartial
+					if r.Bool() {
+						body = protowire.AppendVarint(protowire.AppendTag(nil, 9000, protowire.VarintType), 7)
+					}
+				case r.Bool():
+					// field 14 (singular_string, validated) holding invalid UTF-8
+					body = protowire.AppendBytes(protowire.AppendTag(append([]byte{}, body...), 14, protowire.BytesType), []byte{0xff, 0xfe, 'x'})
+				default:
+					body = append(append([]byte{}, body...), 0x0a, 0xff, 0xff, 0xff) // length prefix running past the body
+				}
+				// pad so that bodies of every size class around the bufio sizes occur
+				nbad++
+			}
+			frames = append(frames, fr{body, bad})
+		}
+		var stream []byte
+		for _, f := range frames {
+			stream = append(stream, frame(f.body)...)
+		}
+		c.Eval()
+		c.Count("rejected_body_streams")
+		c.CountN("rejected_body_frames", int64(nbad))
+		c.DistinctBytes([]byte("rejected"), stream)
+		c.Log("C27 rejected stream=%s", core.Hex(stream))
+		var ref []string
+		for ki, kind := range c27Readers {
+			rd := c27Reader(kind, stream, r)
+			uo := protodelim.UnmarshalOptions{UnmarshalOptions: proto.UnmarshalOptions{AllowPartial: allowPartial}, MaxSize: -1}
+			var seq []string
+			for i := 0; i <= len(frames)+1; i++ {
+				dst := mt.New()
+				var err error
+				if !c.NoPanic("rejected:panic:"+kind, map[string]any{"stream": core.Hex(stream)}, func() { err = uo.UnmarshalFrom(rd, dst.Interface()) }) {
+					seq = append(seq, "panic")
+					break
+				}
+				if err == io.EOF {
+					seq = append(seq, "EOF")
+					break
+				}
+				if err != nil {
+					seq = append(seq, "error")
+					continue
+				}
+				b, _ := proto.MarshalOptions{AllowPartial: true, Deterministic: true}.Marshal(dst.Interface())
+				seq = append(seq, "ok:"+core.Hex(b))
+			}
+			got := strings.Join(seq, " ")
+			if ki == 0 {
+				ref = seq
+				// the reference itself: one result per frame, then EOF; rejected frames error, the others decode
+				okShape := len(seq) == len(frames)+1 && seq[len(seq)-1] == "EOF"
+				for i := 0; okShape && i < len(frames); i++ {
+					if frames[i].bad != (seq[i] == "error") {
+						okShape = false
+					}
+				}
+				if !okShape {
+					c.Violation("rejected:frames-after-a-rejected-body-not-read-at-their-boundaries:"+kind, map[string]any{"stream": core.Hex(stream), "results": got, "frames": len(frames)})
+					break
+				}
+				continue
+			}
+			if got != strings.Join(ref, " ") {
+				c.Violation("rejected:result-sequence-depends-on-reader:"+kind, map[string]any{"stream": core.Hex(stream), "results": got, "results_" + c27Readers[0]: strings.Join(ref, " ")})
 			}
 		}
 	}
